@@ -54,10 +54,14 @@ pub struct Hist {
     pub fb: u8,
     pub dseed: u64,
     pub ops: Vec<Op>,
+    /// 0 = the history starts a fresh message; otherwise the length counter of the first
+    /// instance (and of its reference) is first set to this value through hook H2: the history
+    /// then takes place "late" in a very long message, across a counter-word boundary
+    pub late: u128,
 }
 impl Hist {
     pub fn desc(&self) -> String {
-        format!("h={} fb={} dseed={} ops={}", self.id.name(), self.fb, self.dseed, ops_to_string(&self.ops))
+        format!("h={} fb={} dseed={} late={} ops={}", self.id.name(), self.fb, self.dseed, self.late, ops_to_string(&self.ops))
     }
 }
 
@@ -86,7 +90,20 @@ fn piece_class(n: usize, fill: usize, bs: usize) -> &'static str {
     }
 }
 
-fn check_digest(cx: &mut Ctx, sigp: &str, what: &str, id: &HashId, got: &[u8], shadow: &[u8], opi: usize) -> bool {
+fn check_digest(cx: &mut Ctx, sigp: &str, what: &str, id: &HashId, got: &[u8], shadow: &[u8], opi: usize, late: Option<&super::counters::RefH>) -> bool {
+    if let Some(m) = late {
+        // late history: the oracle is the incremental reference carrying the same counter
+        let exp = m.finalize();
+        cx.log.eval(1);
+        if got != &exp[..] {
+            cx.log.violation(
+                &format!("{}|{}-differs-from-reference-late", sigp, what),
+                &format!("op #{}: digest late in a long message ({} bytes fed in this history) is {} but the reference gives {}", opi, shadow.len(), hex(got), hex(&exp)),
+            );
+            return false;
+        }
+        return true;
+    }
     let exp = id.reference(shadow);
     cx.log.eval(1);
     if let Some(k) = first_diff(got, &exp) {
@@ -117,9 +134,26 @@ pub fn exec(cx: &mut Ctx, h: &Hist) {
     let sigp = format!("{}|{}|{}", cx.prop, id.name(), api::profile());
     let mut drng = Rng::new(h.dseed);
     api::force_backend(h.fb);
-    let mut inst: Vec<Option<(Box<dyn DynHash>, Vec<u8>)>> = Vec::new();
-    match guarded(|| id.new()) {
-        Ok(x) => inst.push(Some((x, Vec::new()))),
+    use super::counters::RefH;
+    let mut inst: Vec<Option<(Box<dyn DynHash>, Vec<u8>, Option<RefH>)>> = Vec::new();
+    match guarded(|| {
+        let mut x = id.new();
+        if h.late != 0 {
+            x.set_counter(h.late);
+        }
+        x
+    }) {
+        Ok(x) => {
+            let late = if h.late != 0 {
+                let mut m = RefH::new(&id);
+                m.set_counter(h.late);
+                cx.log.class(&format!("{}/late-history", id.fam_name()));
+                Some(m)
+            } else {
+                None
+            };
+            inst.push(Some((x, Vec::new(), late)))
+        }
         Err(p) => {
             cx.log.panic_violation(&format!("{}|op=new", sigp), &p);
             api::force_backend(0);
@@ -148,12 +182,15 @@ pub fn exec(cx: &mut Ctx, h: &Hist) {
                 cx.log.class(&format!("{}/update/{}/{}", id.fam_name(), fill_class(fill, bs), piece_class(*n, fill % bs, bs)));
                 if (*n + opi) % 4 == 3 {
                     // by-value Update::chain
-                    let (hh, mut sh) = inst[idx].take().unwrap();
+                    let (hh, mut sh, mut late) = inst[idx].take().unwrap();
                     let pc = piece.clone();
                     match guarded(move || hh.chain_box(&pc)) {
                         Ok(nh) => {
                             sh.extend_from_slice(&piece);
-                            inst[idx] = Some((nh, sh));
+                            if let Some(m) = late.as_mut() {
+                                m.update(&piece);
+                            }
+                            inst[idx] = Some((nh, sh, late));
                         }
                         Err(p) => {
                             cx.log.panic_violation_ctx(&format!("{}|op=chain", sigp), &format!("op #{}", opi), &p);
@@ -170,6 +207,9 @@ pub fn exec(cx: &mut Ctx, h: &Hist) {
                     break;
                 }
                 e.1.extend_from_slice(&piece);
+                if let Some(m) = e.2.as_mut() {
+                    m.update(&piece);
+                }
                 cx.log.event("bytes_fed", *n as u64);
             }
             Op::Clone(_) => {
@@ -178,7 +218,8 @@ pub fn exec(cx: &mut Ctx, h: &Hist) {
                 match guarded(|| e.0.box_clone()) {
                     Ok(c) => {
                         let sh = e.1.clone();
-                        inst.push(Some((c, sh)));
+                        let late = e.2.clone();
+                        inst.push(Some((c, sh, late)));
                     }
                     Err(p) => {
                         cx.log.panic_violation(&format!("{}|op=clone", sigp), &p);
@@ -194,6 +235,7 @@ pub fn exec(cx: &mut Ctx, h: &Hist) {
                     break;
                 }
                 e.1.clear();
+                e.2 = None; // a reset instance starts a fresh message
             }
             Op::FinalizeReset(_) => {
                 cx.log.class(&format!("{}/finalize_reset/{}", id.fam_name(), fill_class(fill, bs)));
@@ -214,13 +256,14 @@ pub fn exec(cx: &mut Ctx, h: &Hist) {
                     }
                 };
                 let sh = std::mem::take(&mut e.1);
-                if !check_digest(cx, &sigp, "finalize_reset", &id, &got, &sh, opi) {
+                let late = e.2.take();
+                if !check_digest(cx, &sigp, "finalize_reset", &id, &got, &sh, opi, late.as_ref()) {
                     break;
                 }
             }
             Op::Finalize(_) => {
                 cx.log.class(&format!("{}/finalize/{}", id.fam_name(), fill_class(fill, bs)));
-                let (hh, sh) = inst[idx].take().unwrap();
+                let (hh, sh, late) = inst[idx].take().unwrap();
                 let got = match guarded(move || hh.finalize_box()) {
                     Ok(g) => g,
                     Err(p) => {
@@ -228,7 +271,7 @@ pub fn exec(cx: &mut Ctx, h: &Hist) {
                         break;
                     }
                 };
-                if !check_digest(cx, &sigp, "finalize", &id, &got, &sh, opi) {
+                if !check_digest(cx, &sigp, "finalize", &id, &got, &sh, opi, late.as_ref()) {
                     break;
                 }
             }
@@ -236,10 +279,10 @@ pub fn exec(cx: &mut Ctx, h: &Hist) {
     }
     // every instance still alive is finalized at the end, so no state goes unobserved
     for k in 0..inst.len() {
-        if let Some((hh, sh)) = inst[k].take() {
+        if let Some((hh, sh, late)) = inst[k].take() {
             match guarded(move || hh.finalize_box()) {
                 Ok(g) => {
-                    if !check_digest(cx, &sigp, "finalize", &id, &g, &sh, h.ops.len()) {
+                    if !check_digest(cx, &sigp, "finalize", &id, &g, &sh, h.ops.len(), late.as_ref()) {
                         break;
                     }
                 }
@@ -325,7 +368,9 @@ pub fn run(cx: &mut Ctx) {
         let id = menu[((i + cx.shard) % 15) as usize];
         let fb = if matches!(id.fam, Fam::Blake | Fam::Jh) && rng.below(3) == 0 { *rng.pick(levels) } else { 0 };
         let ops = gen_ops(&mut rng, id.block_size(), maxops);
-        let h = Hist { id, fb, dseed: rng.u64(), ops };
+        // one history in six takes place late in a very long message (not under Miri: slow models)
+        let late = if !cfg!(miri) && rng.below(6) == 0 { super::counters::late_counter(&mut rng, &id) } else { 0 };
+        let h = Hist { id, fb, dseed: rng.u64(), ops, late };
         cx.log.announce(&h.desc());
         let special = h.ops.iter().any(|o| matches!(o, Op::Clone(_) | Op::Reset(_) | Op::FinalizeReset(_) | Op::Update(_, 0)));
         if h.ops.len() >= 3 && special {
@@ -341,7 +386,7 @@ pub fn run(cx: &mut Ctx) {
 
 pub fn replay(cx: &mut Ctx, desc: &str) {
     let d = Desc::parse(desc);
-    let h = Hist { id: HashId::parse(d.str("h")), fb: d.u64("fb") as u8, dseed: d.u64("dseed"), ops: ops_from_string(d.get("ops").unwrap_or("")) };
+    let h = Hist { id: HashId::parse(d.str("h")), fb: d.u64("fb") as u8, dseed: d.u64("dseed"), ops: ops_from_string(d.get("ops").unwrap_or("")), late: d.get("late").map(crate::log::parse_u128).unwrap_or(0) };
     cx.log.announce(&h.desc());
     exec(cx, &h);
 }
